@@ -454,6 +454,61 @@ class Expander:
         cache[key] = out
         return out
 
+    # --------------------------------------------------------------- inlining
+    def inline_calls(self, t: Term, depth: int = 2, only_private: bool = False) -> Term:
+        """Replace calls of package *functions* (module level or nested, not
+        methods dispatched on objects) by their return terms with the parameters
+        substituted: rules see through extracted helpers."""
+        if depth <= 0 or not isinstance(t, tuple) or not t or not isinstance(t[0], str):
+            return t
+        k = t[0]
+        if k in ("const", "param", "global", "builtin", "func", "rec", "unknown", "unbound", "deep", "root", "exc"):
+            return t
+        if k == "call":
+            fn = t[1]
+            args = tuple(self.inline_calls(a, depth, only_private) for a in t[2])
+            kws = tuple((n, self.inline_calls(v, depth, only_private)) for n, v in t[3])
+            target = None
+            bound_self = None
+            if fn[0] == "global" and fn[1] in self.repo.funcs:
+                target = self.repo.funcs[fn[1]]
+            elif fn[0] == "func" and fn[1] in self.repo.funcs:
+                target = self.repo.funcs[fn[1]]
+            elif fn[0] == "attr" and fn[1][0] == "param":
+                # self._helper(...) / cls._helper(...) inside a class
+                owner = self.repo.funcs.get(fn[1][1])
+                if owner is not None and owner.cls is not None and owner.positional and fn[1][2] == owner.positional[0]:
+                    m = self.repo.find_method(owner.cls, fn[2])
+                    if m is not None and not m.is_property and not self.repo.subclasses(owner.cls.qualname):
+                        target = m
+                        bound_self = fn[1]
+            if target is not None and not isinstance(target.node, ast.Lambda) and not (only_private and not target.name.startswith("_")):
+                rt = self.return_term(target)
+                if not _has_tag(rt, "rec"):
+                    pos = list(target.positional)
+                    mapping = {}
+                    if bound_self is not None and pos and not target.is_static:
+                        mapping[("param", target.qualname, pos[0])] = bound_self
+                        pos = pos[1:]
+                    elif target.is_static and bound_self is not None:
+                        pass
+                    for p, a in zip(pos, args):
+                        mapping[("param", target.qualname, p)] = a
+                    for n, v in kws:
+                        mapping[("param", target.qualname, n)] = v
+                    # defaults are left as parameters
+                    sub = _subst(rt, mapping)
+                    if not any(s_[0] == "param" and s_[1] == target.qualname for s_ in subterms(sub)):
+                        return self.inline_calls(sub, depth - 1, only_private)
+            return ("call", self.inline_calls(fn, depth, only_private) if fn[0] not in ("global", "builtin", "func") else fn, args, kws)
+        return tuple(
+            self.inline_calls(x, depth, only_private) if isinstance(x, tuple) and x and isinstance(x[0], str)
+            else (tuple(self.inline_calls(y, depth, only_private) if isinstance(y, tuple) and y and isinstance(y[0], str)
+                        else (tuple(self.inline_calls(z, depth, only_private) if isinstance(z, tuple) and z and isinstance(z[0], str) else z for z in y) if isinstance(y, tuple) else y)
+                        for y in x) if isinstance(x, tuple) else x)
+            for x in t
+        )
+
     # ------------------------------------------------------ function values
     def return_term(self, func: Func) -> Term:
         key = (func.qualname, -1)
@@ -521,6 +576,14 @@ def root_of(t: Term) -> Term:
     while t[0] in ("attr", "sub", "setattr", "update", "mut", "aug"):
         t = t[1] if t[0] != "aug" else t[2]
     return t
+
+
+def _subst(t, mapping: dict):
+    if not isinstance(t, tuple):
+        return t
+    if t in mapping:
+        return mapping[t]
+    return tuple(_subst(x, mapping) for x in t)
 
 
 def _has_tag(t: Term, tag: str) -> bool:
